@@ -108,8 +108,10 @@ func PatchesFromDocument(doc string) ([]Patch, error) {
 	var jsonPatches []string
 
 	for _, key := range sortedKeys(parsed) {
-		if (key == document.PublicKeyProperty || key == document.ServiceProperty) && isEmptyList(parsed[key]) {
-			// nothing to add (an add patch without entries is not a valid patch)
+		if (key == document.PublicKeyProperty || key == document.ServiceProperty || key == document.AlsoKnownAs) &&
+			(parsed[key] == nil || isEmptyList(parsed[key])) {
+			// nothing to add (an add patch without entries is not a valid patch); null is how a list that was never filled
+			// is written by many JSON encoders
 			continue
 		}
 
